@@ -19,7 +19,7 @@ RULE = ("seeded trees (hidden files, nested directories, symlinks to files and t
 ASSUMPTIONS = ["git 2.39's check-ignore is the reference for 'git's pattern semantics'",
                "only patterns from the grammar in the property's quantifier are generated (no character classes, escapes, trailing spaces)"]
 
-NAMES = ["Build", "A", "a", "b", "build", "target", "foo", "foo.txt", "bar.o", "lib.o", "main.c", "notes", "tmp", ".hidden", ".cache", "x1", "x2", "doc", "out", "été".encode("utf-8").decode("latin-1")]
+NAMES = ["bad\xff", "caf\xe9", "Build", "A", "a", "b", "build", "target", "foo", "foo.txt", "bar.o", "lib.o", "main.c", "notes", "tmp", ".hidden", ".cache", "x1", "x2", "doc", "out", "été".encode("utf-8").decode("latin-1")]
 
 
 def gen_tree(r, top="src"):
